@@ -5,6 +5,8 @@ LANES=${1:-4}
 cd /verif
 tmp=/tmp/seedmatrix2.$$; mkdir -p $tmp
 ls -d /verif/seeded/*/ | xargs -n1 basename > $tmp/all
+cp -r /verif/harness $tmp/harness; export HARNESS_DIR=$tmp/harness   # frozen copy: the run is independent of later edits
+echo "# harness of /verif commit $(git -C /verif rev-parse --short HEAD)$(git -C /verif diff --quiet -- harness || echo +dirty), /repo $(git -C /repo rev-parse --short HEAD)" > $tmp/head
 for l in $(seq 1 $LANES); do
   (
     wt=/tmp/wtm-$l
@@ -16,7 +18,7 @@ for l in $(seq 1 $LANES); do
       own=${n%%-*}
       ids=$( (echo $own; python3 -c "import json,re;print(' '.join(re.findall(r'\bC[0-9][0-9]\b', json.load(open('$d/meta.json')).get('detected_by',''))))") | tr ' ' '\n' | grep -v '^$' | sort -u | tr '\n' ' ')
       if ! git -C $wt apply --check $d/patch.diff 2>/dev/null; then echo "$n: PATCH DOES NOT APPLY" >> $tmp/out.$l; continue; fi
-      res=$(tools/wtrun.sh $wt $d/patch.diff $ids | sed -E 's/^\[(C[0-9]+) rc=([0-9]+) violations=([0-9]+)\].*/\1:rc=\2\/v=\3/' | tr '\n' ' ')
+      res=$(tools/wtrun.sh $wt $d/patch.diff $ids | sed -E 's/^\[(C[0-9]+) rc=([0-9]+) violations=([0-9]+) maxcount=([0-9]+)\].*/\1:rc=\2\/v=\3\/n=\4/' | tr '\n' ' ')
       killed=no; echo "$res" | grep -q "rc=1" && killed=yes
       echo "$n killed=$killed $res" >> $tmp/out.$l
     done
@@ -24,7 +26,7 @@ for l in $(seq 1 $LANES); do
   ) &
 done
 wait
-cat $tmp/out.* | sort > /verif/seeded/MATRIX.txt
+(cat $tmp/head; cat $tmp/out.* | sort) > /verif/seeded/MATRIX.txt
 rm -rf $tmp
 git -C /repo worktree prune
 grep -c "killed=yes" /verif/seeded/MATRIX.txt; grep -v "killed=yes" /verif/seeded/MATRIX.txt
